@@ -122,6 +122,45 @@ def canon_model(s):
 SYNTAX_ERR = re.compile(r"^ERR (expected|unexpected|Value \"|cannot parse|expected string)")
 
 
+EXTRA_ITEMS = [
+    "#[derive(TS)] pub struct ConstN<const N: usize> { data: [u8; N] }",
+    "#[derive(TS)] pub struct ConstDefault<const N: usize = 2> { data: [u8; N], more: Vec<[bool; N]> }",
+    "#[derive(TS)] pub enum ConstEnum<const N: usize = 3, T = u8> { A([T; N]), B }",
+    "#[derive(TS)] pub struct Life<'a, T: 'a + Clone = String> { r: &'a str, t: Vec<T> }",
+    "#[derive(TS)] pub struct Wh<T, U = Vec<T>> where T: Clone, U: std::fmt::Debug { t: T, u: U }",
+    "#[derive(TS)] pub struct Mixed<'a, const K: usize, T> { a: [&'a str; K], t: Option<T> }",
+    "#[derive(TS)] #[ts(concrete(T = i32))] pub struct Conc<T, const N: usize = 1> { t: [T; N] }",
+    "#[derive(TS)] pub struct r#Raw<r#type> { r#fn: r#type }",
+    "#[derive(TS)] pub struct TupleConst<const N: usize = 4>(pub [u8; N], #[ts(skip)] pub u8);",
+    "#[derive(TS)] pub struct Unit0<const N: usize = 0>;",
+]
+
+
+def extra_items():
+    """compile the items above against /repo; returns [(item, first rustc error attributed to it)]"""
+    src = ["#![allow(dead_code, non_camel_case_types)]", "use ts_rs::TS;"]
+    lines_of = {}
+    for k, it in enumerate(EXTRA_ITEMS):
+        src.append("mod m%d { use ts_rs::TS;" % k)
+        src.append(it)
+        lines_of[len(src)] = k
+        src.append("}")
+    src.append("fn main() {}")
+    try:
+        vlib.build_crate("c16_extra", vlib.harness_toml("c16_extra", deps=("ts-rs",)), {"src/main.rs": "\n".join(src) + "\n"}, hooks=False)
+        return []
+    except vlib.HarnessError as e:
+        text = str(e)
+        bad = {}
+        for m in re.finditer(r"error(?:\[(E\d+)\])?: ([^\n]*)\n\s*--> src/main\.rs:(\d+)", text):
+            k = lines_of.get(int(m.group(3)))
+            if k is not None and k not in bad:
+                bad[k] = "%s %s" % (m.group(1) or "", m.group(2))
+        if not bad:
+            raise
+        return [(EXTRA_ITEMS[k], msg) for k, msg in sorted(bad.items())]
+
+
 def run(ctx):
     ctx.prove()
     ok, out = vlib.coq_make(["theories/Model/Validity.vo", "theories/Tools/Digest.vo"])
@@ -245,6 +284,11 @@ def run(ctx):
                 pass     # serde's own requirements on generated items (skip needs Default): generator artefact, not the ts-rs derive
             else:
                 viol.append(data)
+    # items using Rust features the model has no notion of (const parameters with and without defaults, lifetimes, bounds,
+    # where clauses, raw identifiers): the derive accepts them, so the expansion has to compile
+    extra_bad = extra_items()
+    for item, msg in extra_bad:
+        viol.append(dict(kind="property-violated", what="an expansion the derive accepted does not compile", item=item, rustc=msg))
     for v in viol[:3]:
         ctx.fail(v["what"], v)
     if corr and not viol:
@@ -255,7 +299,7 @@ def run(ctx):
     ctx.coverage.update({
         "evaluations": len(items) + len(res["defs"]) + len(res["rejected"]),
         "distinct_nontrivial": len(nontrivial),
-        "rule": "items (6 struct shapes; enums whose first variant is named / newtype / unit followed by plain variants) with every subset of <= 2 attribute entries per position (container, variant, first field; both spellings; keys and argument syntax from the regenerated tables), container x member combinations, `tag` = `content`, unknown #[ts] keys; expanded in process (types::struct_def / enum_def + into_impl under catch_unwind) and by Model/Validity.v: tokens / compile error with its message / panic must agree; never PANIC; every documented incompatible pair present at a container, variant or field is rejected on the REAL outcome; `the rest compiles` = rustc's verdict on the generated corpus (definitions rejected with a type error are violations unless in a known class); non-trivial = distinct diagnostics",
+        "rule": "items (6 struct shapes; enums whose first variant is named / newtype / unit followed by plain variants) with every subset of <= 2 attribute entries per position (container, variant, first field; both spellings; keys and argument syntax from the regenerated tables), container x member combinations, `tag` = `content`, unknown #[ts] keys; expanded in process (types::struct_def / enum_def + into_impl under catch_unwind) and by Model/Validity.v: tokens / compile error with its message / panic must agree; never PANIC; every documented incompatible pair present at a container, variant or field is rejected on the REAL outcome; `the rest compiles` = rustc's verdict on the generated corpus and on a list of items with const parameters (with defaults), lifetimes, bounds, where clauses and raw identifiers (definitions rejected with a type error are violations unless in a known class); non-trivial = distinct diagnostics",
         "samples": [dict(source=items[k][0], outcome=real[k]) for k in (1, len(items) // 3, len(items) // 2, len(items) - 2)],
         "correspondence": {"items": len(items), "confirmed_breaks": len(corr)},
         "oracle": {"outcomes": classes, "incompatible_pairs_rejected": rejected_pairs, "violations": len(viol), "corpus_definitions_compiled": len(res["defs"]),
